@@ -206,7 +206,8 @@ class Chipset(object):
             if sum(frame[5:8]) & 0xFF != 0:
                 self.log.error("frame lenght checksum error")
                 raise IOError(errno.EIO, os.strerror(errno.EIO))
-            if unpack(">H", memoryview(frame[5:7]))[0] != len(frame) - 10:
+            if len(frame) < 10 or \
+               unpack(">H", memoryview(frame[5:7]))[0] != len(frame) - 10:
                 self.log.error("frame lenght value mismatch")
                 raise IOError(errno.EIO, os.strerror(errno.EIO))
             del frame[0:8]
@@ -215,12 +216,16 @@ class Chipset(object):
             if sum(frame[3:5]) & 0xFF != 0:
                 self.log.error("frame lenght checksum error")
                 raise IOError(errno.EIO, os.strerror(errno.EIO))
-            if frame[3] != len(frame) - 7:
+            if len(frame) < 7 or frame[3] != len(frame) - 7:
                 self.log.error("frame lenght value mismatch")
                 raise IOError(errno.EIO, os.strerror(errno.EIO))
             del frame[0:5]
         else:
             self.log.debug("invalid frame start sequence")
+            raise IOError(errno.EIO, os.strerror(errno.EIO))
+
+        if len(frame) < 3 or frame[-1] != 0:
+            self.log.error("frame data or postamble error")
             raise IOError(errno.EIO, os.strerror(errno.EIO))
 
         if not sum(frame) & 0xFF == 0:
@@ -230,7 +235,7 @@ class Chipset(object):
         if frame[0] == 0x7F:  # error frame
             self.chipset_error(0x7F)
 
-        if not frame[0] == 0xD5:
+        if len(frame) < 4 or not frame[0] == 0xD5:
             self.log.error("invalid frame identifier")
             raise IOError(errno.EIO, os.strerror(errno.EIO))
 
